@@ -44,6 +44,32 @@ class _ParseHooks(Hooks):
         return NotImplemented
 
 
+def productions(par) -> Dict[Any, Any]:
+    """(head, right-hand side) -> method, read from the @doc('head : rhs | rhs') grammar docstrings (ply dispatches on them, the method
+    names only need the p_ prefix)."""
+    out: Dict[Any, Any] = {}
+    for m in par.methods.values():
+        for d in m.node.decorator_list:
+            if isinstance(d, ast.Call) and dotted(d.func) == 'doc' and d.args and isinstance(d.args[0], ast.Constant):
+                head = None
+                for part in re.split(r'\n', d.args[0].value):
+                    part = part.strip()
+                    if ':' in part and not part.startswith('|'):
+                        head, rhs = part.split(':', 1)
+                        head = head.strip()
+                        out[(head, ' '.join(rhs.split()))] = m
+                    elif part.startswith('|') and head:
+                        out[(head, ' '.join(part[1:].split()))] = m
+    return out
+
+
+def _prod(par, head: str, rhs: str):
+    m = productions(par).get((head, rhs))
+    if m is None:
+        raise AnalysisError(f'parser production `{head} : {rhs}` not found')
+    return m
+
+
 def _shape(v: Any) -> Any:
     if isinstance(v, SeqVal):
         return ('Seq',) + tuple(_shape(x) for x in v)
@@ -81,6 +107,7 @@ def _nesting_clause(repo: Repo, chk: Check, par) -> None:
         'p_arg_subseq': lambda x: [None, '{', x, '}'],
         'p_instr_subseq': lambda x: [None, '{', x, '}'],
     }
+    rule_of = {'p_arg_subseq': ('arg', 'LEFT_CURLY instr RIGHT_CURLY'), 'p_instr_subseq': ('instr', 'LEFT_CURLY instr RIGHT_CURLY')}
     want = {
         # arg : { instr } -> the argument list of items; an explicit inner sequence stays ONE item
         ('p_arg_subseq', 'flat'): ('list', 'A', 'B'), ('p_arg_subseq', 'inner'): ('list', ('Seq', 'A')), ('p_arg_subseq', 'single'): ('list', 'C'),
@@ -92,9 +119,7 @@ def _nesting_clause(repo: Repo, chk: Check, par) -> None:
     vals = {'flat': flat, 'inner': inner, 'single': single, 'empty': empty}
     n = 0
     for mname, mk in cases.items():
-        m = par.methods.get(mname)
-        if m is None:
-            raise AnalysisError(f'parser production {mname} not found')
+        m = _prod(par, *rule_of[mname])
         for kind, x in vals.items():
             n += 1
             import copy
@@ -106,7 +131,7 @@ def _nesting_clause(repo: Repo, chk: Check, par) -> None:
                    what=f'{mname}: for a {kind} `instr` value the production builds {got}, the Micheline of the text is {want[(mname, kind)]} '
                         f'(an explicit inner {{ ... }} must stay one nested element; only the plain `a ; b` accumulator is spliced)')
     # instr : instr SEMI instr and args : args arg
-    m = par.methods.get('p_instr_list')
+    m = _prod(par, 'instr', 'instr SEMI instr')
     for (k1, x), (k2, y) in [(('flat', flat), ('single', single)), (('inner', inner), ('single', single)), (('single', single), ('inner', inner)),
                              (('inner', inner), ('inner', SeqVal([b]))), (('empty', None), ('single', single))]:
         n += 1
@@ -122,7 +147,7 @@ def _nesting_clause(repo: Repo, chk: Check, par) -> None:
         got = _shape(_p0(res)) if len(res) == 1 and res[0].outcome == 'return' else ('?',)
         chk.ob('R-TEMPLATE', m.qualname, got == _shape(exp), f'p_instr_list on {k1} ; {k2} splices plain lists only', m.loc, {'built': str(got), 'reference': str(_shape(exp))},
                what=f'p_instr_list: `{k1} ; {k2}` builds {got}, expected {_shape(exp)} (explicit sequences are single items of the enclosing sequence)')
-    m = par.methods.get('p_args_list')
+    m = _prod(par, 'args', 'args arg')
     for k2, y in (('inner', inner), ('flat list argument', flat), ('single', single)):
         n += 1
         import copy
@@ -236,39 +261,41 @@ def run(repo: Repo, chk: Check) -> None:
     strs = [json.dumps(s) for s in ('', 'abc', 'a"b', 'a\\b', 'line\nbreak', 'tab\t', 'unié')]
     chk.ob('R-PAIR', f'{PARSE}.SimpleMichelsonLexer.t_STR', all(re.fullmatch(t_str, s) for s in strs), 'STR token accepts every json.dumps output', lex.loc,
            {'pattern': t_str}, what='a string literal printed with json.dumps is not a single STR token')
-    # writer / reader pairs
-    fn_src = norm(fn.node)
-    writer_ok = "json.dumps(value)" in fn_src and "f'0x{value}'" in fn_src
+    # writer / reader pairs, decided by interpreting both sides on an opaque literal payload
     par = repo.cls(f'{PARSE}.MichelsonParser')
-    readers = {'str': 0, 'byte': 0, 'int': 0}
-    for mname, m in par.methods.items():
-        src = norm(m.node)
-        if mname.endswith('_str'):
-            readers['str'] += int("json.loads(p[1])" in src)
-        if mname.endswith('_byte'):
-            readers['byte'] += int("p[1][2:]" in src)
-        if mname.endswith('_int'):
-            readers['int'] += int("{'int': p[1]}" in src)
-    chk.ob('R-PAIR', fn.qualname, writer_ok and readers == {'str': 2, 'byte': 2, 'int': 2}, 'literal writers and readers are inverse pairs in both positions', fn.loc,
-           {'writer_uses_json_dumps_and_0x': writer_ok, 'readers': readers},
-           what='a literal kind is written by one convention and read by another (string escapes / 0x prefix / decimal)')
+
+    def write(kind):
+        _it = Interp(repo, Hooks(), max_depth=40)
+        res = _it.run_function(fn, [{kind: Sym('v', 'str')}], {})
+        if len(res) != 1 or res[0].outcome != 'return':
+            raise AnalysisError(f'format_node on a {kind} literal: {[(r.outcome, vrepr(r.value)[:60]) for r in res]}')
+        return res[0].value
+
+    def read(head, tokname, kind):
+        m = _prod(par, head, tokname)
+        res = _run_prod(repo, m, [None, Sym('tok', 'str')])
+        if len(res) != 1 or res[0].outcome != 'return' or not isinstance(res[0].value, dict):
+            raise AnalysisError(f'production `{head} : {tokname}` does not build a node: {[(r.outcome, vrepr(r.value)[:60]) for r in res]}')
+        return res[0].value
+
+    w = {k: vrepr(write(k)) for k in ('int', 'bytes', 'string')}
+    want_w = {'int': vrepr(Sym('v')), 'bytes': vrepr(App('cat', '0x', Sym('v'))), 'string': vrepr(App('call:json.dumps', Sym('v')))}
+    want_r = {'INT': {'int': vrepr(Sym('tok'))}, 'BYTE': {'bytes': vrepr(App('slice', Sym('tok'), 2, None, None))},
+              'STR': {'string': vrepr(App('call:json.loads', Sym('tok')))}}
+    r_bad = []
+    for head in ('arg', 'instr'):
+        for tokname, kind in (('INT', 'int'), ('BYTE', 'bytes'), ('STR', 'string')):
+            got = {k: vrepr(v) for k, v in read(head, tokname, kind).items()}
+            if got != want_r[tokname]:
+                r_bad.append((f'{head} : {tokname}', got))
+    chk.ob('R-PAIR', fn.qualname, w == want_w and not r_bad, 'literal writers and readers are inverse pairs in both positions', fn.loc,
+           {'writers': w, 'readers_off': r_bad},
+           what='a literal kind is written by one convention and read by another (string escapes / 0x prefix / decimal): '
+                f'writers {w}, readers that differ {r_bad}')
 
     # ---- 3 grammar productions --------------------------------------------------------------------------------------------
     chk.set_clause('C18.3')
-    prods = set()
-    for m in par.methods.values():
-        for d in m.node.decorator_list:
-            if isinstance(d, ast.Call) and dotted(d.func) == 'doc' and d.args and isinstance(d.args[0], ast.Constant):
-                text = d.args[0].value
-                head = None
-                for part in re.split(r'\n', text):
-                    part = part.strip()
-                    if ':' in part and not part.startswith('|'):
-                        head, rhs = part.split(':', 1)
-                        head = head.strip()
-                        prods.add((head, ' '.join(rhs.split())))
-                    elif part.startswith('|') and head:
-                        prods.add((head, ' '.join(part[1:].split())))
+    prods = set(productions(par))
     need = {('arg', 'LEFT_PAREN expr RIGHT_PAREN'), ('arg', 'LEFT_CURLY instr RIGHT_CURLY'), ('instr', 'LEFT_CURLY instr RIGHT_CURLY'),
             ('instr', 'instr SEMI instr'), ('expr', 'PRIM annots args'), ('arg', 'PRIM'), ('arg', 'INT'), ('arg', 'BYTE'), ('arg', 'STR'),
             ('instr', 'INT'), ('instr', 'BYTE'), ('instr', 'STR'), ('annots', 'annots annot'), ('args', 'args arg'), ('instr', 'empty'), ('args', 'empty')}
